@@ -64,6 +64,9 @@ func (c *c07H2Conn) Close(t api.ConnectionCloseType, e api.ConnectionEvent) erro
 
 type c07H2Handed struct {
 	Method, Path, Mark, Hdr, Body, Trailers string
+	// the body object itself: the stream layer hands it on to a worker goroutine, so what it holds must not
+	// change when later reads re-use the connection's read buffer (seeded change C07-r6)
+	data buffer.IoBuffer
 }
 
 type c07H2Listener struct{ handed []c07H2Handed }
@@ -95,6 +98,7 @@ func (r *c07H2Receiver) OnReceive(ctx context.Context, headers api.HeaderMap, da
 	}
 	if data != nil && !reflect.ValueOf(data).IsNil() {
 		h.Body = hex.EncodeToString(data.Bytes())
+		h.data = data
 	}
 	r.l.handed = append(r.l.handed, h)
 }
@@ -216,6 +220,12 @@ func c07H2Exec(s *c07frames.H2Script, c c07H2Case) (res c07H2Result) {
 			if h.Method != want[i].Method || h.Path != want[i].Path || h.Mark != want[i].Mark || h.Body != want[i].Body {
 				failf("request handed up differs from the request sent", "request #%d: got %+v, sent %+v", i, h, want[i])
 				return false
+			}
+			if h.data != nil {
+				if now := hex.EncodeToString(h.data.Bytes()); now != h.Body {
+					failf("body of a request handed up earlier changes when later reads re-use the connection's read buffer", "request #%d (%s %s) after %d bytes fed: body object now holds %s, held %s when handed up", i, h.Method, h.Path, fed, now, h.Body)
+					return false
+				}
 			}
 		}
 		return true
